@@ -493,10 +493,18 @@ func runC20(c *fw.Case) {
 	for i := 0; i < c20PerCase; i++ {
 		f.classes = nil
 		if f.r.Intn(3) != 0 {
-			proto0 := msgs[f.r.Intn(len(msgs))]
-			m := reflect.New(reflect.TypeOf(proto0).Elem())
-			f.fill(m.Elem(), 0)
-			msg := m.Interface().(sdk.Msg)
+			var msg sdk.Msg
+			if f.r.Intn(5) == 0 {
+				// a valid nested update with exactly one field made hostile: random filling
+				// practically never gets past the structural checks of these messages
+				msg = f.nearValid()
+			}
+			if msg == nil {
+				proto0 := msgs[f.r.Intn(len(msgs))]
+				m := reflect.New(reflect.TypeOf(proto0).Elem())
+				f.fill(m.Elem(), 0)
+				msg = m.Interface().(sdk.Msg)
+			}
 			// only wire-representable inputs can reach a node: round-trip through the
 			// protobuf encoding and interface unpacking exactly like the tx decoder does
 			rt, okw := wireRoundTrip(e.n, msg.(proto.Message))
@@ -572,8 +580,14 @@ func c20RunMsg(c *fw.Case, e *vestEnv, msg sdk.Msg, name string, f *fuzzEnv) (re
 	// handler
 	handler := e.n.App.MsgServiceRouter().Handler(msg)
 	if handler != nil {
-		cctx, _ := e.n.Ctx().CacheContext()
-		if p := safeCall("handler", func() { handler(cctx, msg) }); p != nil {
+		cctx, write := e.n.Ctx().CacheContext()
+		var herr error
+		if p := safeCall("handler", func() {
+			_, herr = handler(cctx, msg)
+			if herr == nil && f.r.Intn(3) == 0 && c20SafeToKeep(msg) {
+				write() // keep the effect: later messages and queries run against the new state
+			}
+		}); p != nil {
 			c.ViolateD("C20/handler-panic/"+name+"/"+panicKey(p.Stack), detail(p), "%s passed ValidateBasic, its handler panicked: %s", name, short(p.Value, 200))
 			return true
 		}
@@ -699,4 +713,155 @@ func wireRoundTrip(n *chain.Node, m proto.Message) (out proto.Message, ok bool) 
 		return nil, false
 	}
 	return nv, true
+}
+
+// c20SafeToKeep: emission configurations whose exponential periods would iterate an
+// astronomic number of steps (a valid 1 ns step over years) are executed but not kept -
+// every later query would loop for hours. That is a cost issue outside C20 (C10 bounds
+// steps to >= 1 s); it must not hang the harness.
+func c20SafeToKeep(msg sdk.Msg) bool {
+	var start time.Time
+	var minters []*minttypes.Minter
+	switch m := msg.(type) {
+	case *minttypes.MsgUpdateParams:
+		start, minters = m.StartTime, m.Minters
+	case *minttypes.MsgUpdateMintersParams:
+		start, minters = m.StartTime, m.Minters
+	default:
+		return true
+	}
+	for _, m := range minters {
+		if m == nil || m.Config == nil {
+			continue
+		}
+		if es, ok := m.Config.GetCachedValue().(*minttypes.ExponentialStepMinting); ok && es.StepDuration > 0 && es.StepDuration < time.Second {
+			return false
+		}
+	}
+	sorted := append([]*minttypes.Minter{}, minters...)
+	sortMinters(sorted)
+	return minterStepCost(start, sorted, gen.Epoch.Add(10*365*24*time.Hour)) <= 50000
+}
+
+func sortMinters(ms []*minttypes.Minter) {
+	for i := 1; i < len(ms); i++ {
+		for j := i; j > 0 && ms[j] != nil && ms[j-1] != nil && ms[j].SequenceId < ms[j-1].SequenceId; j-- {
+			ms[j], ms[j-1] = ms[j-1], ms[j]
+		}
+	}
+}
+
+// nearValid builds a generator-valid minter or distributor update and makes exactly one
+// field of it hostile.
+func (f *fuzzEnv) nearValid() sdk.Msg {
+	auth := govAuthority()
+	if f.r.Intn(6) == 0 {
+		auth = f.hostileString("authority")
+	}
+	if f.r.Intn(3) == 0 {
+		sds := gen.SubDistributors(f.r, gen.DistOpts{BaseAddrs: f.addrs[:4], MaxSubs: 4})
+		if sds == nil {
+			return nil
+		}
+		f.class("nv:distributor")
+		m := &disttypes.MsgUpdateParams{Authority: auth, SubDistributors: cloneSubs(sds)}
+		if f.r.Intn(8) != 0 {
+			f.mutateOneLeaf(reflect.ValueOf(&m.SubDistributors).Elem())
+		}
+		return m
+	}
+	mc := gen.Minters(f.r, "uc4e", 24)
+	minters := mc.Params.Minters
+	start := mc.Params.StartTime
+	if start.After(gen.Epoch.Add(time.Hour)) {
+		start = gen.Epoch
+	}
+	f.class("nv:minter")
+	i := f.r.Intn(len(minters))
+	repack := func(v proto.Message) { minters[i].Config, _ = codectypes.NewAnyWithValue(v) }
+	switch f.r.Intn(9) {
+	case 0:
+		f.class("nv:unchanged")
+	case 1:
+		minters[i].Config = f.hostileAny()
+	case 2, 3, 4:
+		// one field of an exponential configuration
+		for j := range minters {
+			if es, ok := minters[j].Config.GetCachedValue().(*minttypes.ExponentialStepMinting); ok {
+				i = j
+				c := *es
+				switch f.r.Intn(3) {
+				case 0:
+					c.StepDuration = f.hostileDuration()
+				case 1:
+					c.Amount = f.hostileInt()
+				default:
+					c.AmountMultiplier = f.hostileDec()
+				}
+				repack(&c)
+				break
+			}
+		}
+	case 5:
+		if lm, ok := minters[i].Config.GetCachedValue().(*minttypes.LinearMinting); ok {
+			c := *lm
+			c.Amount = f.hostileInt()
+			repack(&c)
+		}
+	case 6:
+		f.fillValue(reflect.ValueOf(&minters[i].EndTime).Elem(), "EndTime", 0)
+	case 7:
+		f.fillValue(reflect.ValueOf(&minters[i].SequenceId).Elem(), "SequenceId", 0)
+	default:
+		f.fillValue(reflect.ValueOf(&start).Elem(), "StartTime", 0)
+	}
+	if f.r.Intn(2) == 0 {
+		return &minttypes.MsgUpdateMintersParams{Authority: auth, StartTime: start, Minters: minters}
+	}
+	d := "uc4e"
+	if f.r.Intn(4) == 0 {
+		d = f.hostileDenom()
+	}
+	return &minttypes.MsgUpdateParams{Authority: auth, MintDenom: d, StartTime: start, Minters: minters}
+}
+
+// mutateOneLeaf replaces one scalar leaf below v by a hostile value.
+func (f *fuzzEnv) mutateOneLeaf(v reflect.Value) {
+	type leaf struct {
+		v    reflect.Value
+		name string
+	}
+	var leaves []leaf
+	var walk func(v reflect.Value, name string)
+	walk = func(v reflect.Value, name string) {
+		t := v.Type()
+		switch {
+		case t == tInt || t == tDec || t == tTime || t == tDuration || t == tAnyPtr:
+			leaves = append(leaves, leaf{v, name})
+		case t.Kind() == reflect.Struct:
+			for i := 0; i < t.NumField(); i++ {
+				if fld := t.Field(i); fld.PkgPath == "" && !strings.HasPrefix(fld.Name, "XXX_") {
+					walk(v.Field(i), fld.Name)
+				}
+			}
+		case t.Kind() == reflect.Ptr:
+			leaves = append(leaves, leaf{v, name}) // may become nil
+			if !v.IsNil() && t.Elem().Kind() == reflect.Struct {
+				walk(v.Elem(), name)
+			}
+		case t.Kind() == reflect.Slice && t.Elem().Kind() != reflect.Uint8:
+			for i := 0; i < v.Len(); i++ {
+				walk(v.Index(i), name)
+			}
+		default:
+			leaves = append(leaves, leaf{v, name})
+		}
+	}
+	walk(v, "")
+	if len(leaves) == 0 {
+		return
+	}
+	l := leaves[f.r.Intn(len(leaves))]
+	f.class("nv:" + l.name)
+	f.fillValue(l.v, l.name, 3)
 }
